@@ -10,11 +10,13 @@ EXTENDS Integers, Sequences, FiniteSets, TLC
 ParamDims == [blk     : {"1k", "2k", "4k"},
               journal : {"j", "nj"},
               csum    : {"csum", "nocsum"},
-              extra   : {"", "no64bit", "noflex", "sparse2", "bpg256", "bpg2048", "ratio4k", "inodes64", "dirindex", "nohuge", "noresize"},
+              extra   : {"", "no64bit", "noflex", "sparse2", "bpg256", "bpg256nr", "bpg2048", "ratio4k", "inodes64", "dirindex", "nohuge", "noresize"},
               size    : {"min", "one", "multi"}]
 ParamBase == [blk |-> "1k", journal |-> "j", csum |-> "nocsum", extra |-> "", size |-> "one"]
 Deviations(t) == Cardinality({f \in DOMAIN ParamBase : t[f] # ParamBase[f]})
 P_C05_Clean(ev) == ev.fsck = 0
 P_C05_Debugfs(ev) == ev.a = "Debugfs" => ev.dbg
-P_C05(ev) == P_C05_Clean(ev) /\ P_C05_Debugfs(ev)
+\* macro calls (Straddle) run the checker between their own steps as well: ev.fsckmid is the worst status seen
+P_C05_Inside(ev) == ev.fsckmid = 0
+P_C05(ev) == P_C05_Clean(ev) /\ P_C05_Debugfs(ev) /\ P_C05_Inside(ev)
 ===============================================================================
